@@ -59,15 +59,16 @@ def body_lines(m, is_method=False):
 
 class Program:
     def __init__(self, spec, env=None, tag="p", only=None, order=None, vf=None, spelling="typing",
-                 extra=None, build=True):
+                 extra=None, build=True, ann_overrides=None, ns=None):
         self.spec = spec
         self.env = env or T.Env(spec.get("hier", []))
         self.vf = vf or PVF()
         self.tag = tag
         self.files = []
-        self.ns = {}
+        self.ns = dict(ns or {})
         self.fns = {}
         self.spelling = spelling
+        self.ann_overrides = ann_overrides or {}     # {mid: {param name: annotation object}}
         methods = list(spec["methods"]) + list(extra or [])
         if only is not None:
             methods = [m for m in methods if m["mid"] in only]
@@ -80,7 +81,7 @@ class Program:
 
     def make(self, m):
         fn, f = make_method(m, self.env, self.vf, body_lines(m), tag=self.tag, shared_ns=self.ns,
-                            spelling=self.spelling)
+                            spelling=self.spelling, ann_override=self.ann_overrides.get(m["mid"]))
         self.files.append(f)
         self.fns[m["mid"]] = fn
         return fn
